@@ -234,6 +234,25 @@ def delete_fault_cases(rng, cfix, n_random):
     return out
 
 
+def lookup_fault_cases(rng, cfix, n_random):
+    """a storage failure on either repository read of a lookup (index, record), while the legacy registry / cloud control hold an entry
+    for the SAME Host owned by somebody else: the request must be rejected, never answered by another source"""
+    out = []
+    k = 5 if cfix else 4
+    legacy = lambda sub, cid, pid: {"sub": sub, "base": "tunnox.net", "id": pid, "client": cid, "tgt": 700 + pid, "active": True, "revoked": False, "exp": 0}
+    for where in ("reg", "cloud"):
+        for fl in ([True], [False, True], [True, False, True], [False, True, True]):
+            th = [thr(1, [C("a", 11)]), thr(2, [C("b", 22), U(0, "inactive", 0, 23)]),
+                  thr(9, [L("a.tunnox.net:80"), L("a.tunnox.net")], fl), thr(9, [L("b.tunnox.net"), L("B.TUNNOX.NET")], fl)]
+            kw = {where: [legacy("a", 7, 72), legacy("b", 8, 73)]}
+            out.append(case(th, [0] * k + [1] * (k + 2) + [2] * 4 + [3] * 4, **kw))
+    for _ in range(n_random):
+        th = [thr(1, [C("a", 11), D(0)]), thr(2, [C("a", 22)]),
+              thr(9, [L(spellings(rng, "a.tunnox.net")) for _ in range(3)], [rng.random() < 0.4 for _ in range(6)])]
+        out.append(case(th, bursts(rng, 3), reg=[legacy("a", 7, 72)], cloud=[legacy("a", 8, 73)]))
+    return out
+
+
 def host_cases(rng):
     """every Host spelling of the property against a registered name, a legacy name and nothing"""
     out = []
@@ -314,7 +333,7 @@ def legacy_term(e):
     return [(e["sub"] + "." + e["base"]).encode("latin1"), e["id"], encz(e["client"]), e["tgt"], bool(e["active"]), bool(e["revoked"]), e["exp"]]
 
 
-def case_value(c, o, guarded, cfix, ifirst=True):
+def case_value(c, o, guarded, cfix, ifirst=True, estop=True):
     names = set()
     for t in c["threads"]:
         for op in t["ops"]:
@@ -338,7 +357,7 @@ def case_value(c, o, guarded, cfix, ifirst=True):
            [[n.encode("latin1"), res_term(f)] for n, f in zip(nl, o["finals"])],
            bool(o["next_ttl"]), list(o["glist"])]
     atomic = not (c["store"] == "hybrid" and o["split_incr"])
-    return [[bool(guarded), bool(atomic), T0, bool(cfix), bool(ifirst)], ths, list(o["sched"]), [legacy_term(e) for e in c["reg"]],
+    return [[bool(guarded), bool(atomic), T0, bool(cfix), bool(ifirst), bool(estop)], ths, list(o["sched"]), [legacy_term(e) for e in c["reg"]],
             [legacy_term(e) for e in c["cloud"]], obs]
 
 
@@ -377,6 +396,7 @@ def run(ctx, only_cases=None):
     guarded = "delete_is_guarded : bool := true" in gen_text
     cfix = "counter_never_expires : bool := true" in gen_text
     ifirst = "delete_index_before_record : bool := true" in gen_text
+    estop = "lookup_error_stops : bool := true" in gen_text
     broken = None
     try:
         pinfo = vlib.coq_properties("C19")
@@ -395,11 +415,15 @@ def run(ctx, only_cases=None):
         cases += delete_fault_cases(rng, cfix, 300 if thorough else 30)     # first: their replays name the fault position
         cases += race_cases(rng, guarded, cfix, 400 if thorough else 40)
         cases += host_cases(rng)
+        cases += lookup_fault_cases(rng, cfix, 200 if thorough else 25)
         cases += impersonation_cases(rng, cfix, 200 if thorough else 25)
         cases += cleanup_cases(rng, cfix, 300 if thorough else 30)
         cases += dup_id_cases(rng, 60 if thorough else 6)
         cases += reset_cases(rng)
         cases += [{"mode": "nodes"}, {"mode": "backends"}]
+        # the production create path (command handler -> adapter: create + update with the expiry) with a 1 s REAL ttl,
+        # then request / sweep / re-claim / request
+        cases += [{"mode": "adapter", "ttl": 1, "handler": True}] + ([{"mode": "adapter", "ttl": 1, "handler": False}] if thorough else [])
         # the legacy in-memory registry: concurrent claims of one new name (steered on its mutex, plus barrier rounds),
         # directly and through the management API's create handler (claim -> Register refuses -> rollback)
         cases += [{"mode": "registry", "registry": {"k": k, "rounds": 600 if thorough else 60, "loose": 3000 if thorough else 300,
@@ -422,7 +446,7 @@ def run(ctx, only_cases=None):
             nfail += 1
             ctx.violation(key, "real repository / domain proxy lookup: " + msg, {"case": c, "observed": o})
     sc = [(c, o) for c, o in zip(cases, outs) if c["mode"] == "sched" and not o.get("abandoned")]
-    terms = [case_value(c, o, guarded, cfix, ifirst) for c, o in sc]
+    terms = [case_value(c, o, guarded, cfix, ifirst, estop) for c, o in sc]
     mism = []
     try:
         res = vlib.model_eval("C19", terms)
